@@ -336,6 +336,23 @@ class GlobalApproxTides(TidesBase):
 
         super().fixed_q_dt_changed()
 
+        # The stored CPL / CTL Love numbers were calculated with the previous fixed-q / fixed-dt. Recalculate them for the
+        #    current tidal frequencies before the modes are collapsed, otherwise the old dissipation efficiency is used
+        #    until the next change in frequency.
+        if self.unique_tidal_frequencies is not None:
+            if self.use_ctl:
+                self._ctl_complex_love_by_unique_freq = \
+                    ctl_neg_imk_helper_func(
+                        self.unique_tidal_frequencies, self.fixed_k2,
+                        self.ctl_calc_method, self.ctl_calc_input_getter()
+                        )
+            else:
+                self._cpl_complex_love_by_unique_freq = \
+                    cpl_neg_imk_helper_func(
+                        self.unique_tidal_frequencies, self.fixed_k2,
+                        self.fixed_q
+                        )
+
         self.collapse_modes()
 
     def clear_state(self):
